@@ -8,7 +8,7 @@
 (* gsub_apply_lookup).  Invariants checked on every state:                  *)
 (*   CursorInRun, CharsConserved, FlagsSane, ProgramsWellFormed,            *)
 (*   SmallStepIsDenotation (at the end: history = Gsub!GsubSteps),          *)
-(* and the action property Terminates ([][Measure' < Measure]_vars).        *)
+(* and Terminates: an Assert in Next that the measure strictly decreases.   *)
 (* At the end of a case one CASE line is printed with the expected run      *)
 (* after every lookup under each accepted reading (Dev_xxx), plus the runs of *)
 (* the known non-conformant reading (used to classify mismatches only).     *)
@@ -80,8 +80,8 @@ Req(tag, a) == [tag |-> tag, alt |-> a]
 
 \* a program that applies lookup 0 only (further lookups are reached as nested lookups)
 Prog(gd, lookups) ==
-  [gdef |-> Gdef(gd), lookups |-> lookups, features |-> <<Feat("test", <<0>>)>>, vars |-> <<>>,
-   request |-> <<Req("test", 0)>>, tuple |-> <<>>]
+  [gdef |-> Gdef(gd), lookups |-> lookups, features |-> <<Feat("liga", <<0>>)>>, vars |-> <<>>,
+   request |-> <<Req("liga", 0)>>, tuple |-> <<>>]
 Entry(name, prog, alpha, maxlen) == [name |-> name, prog |-> prog, alpha |-> alpha, maxlen |-> maxlen]
 
 \* sequence of all pairs / triples of two / three sequences
@@ -135,7 +135,7 @@ FamAlt ==
      Entry("alternate",
            [Prog(Par(n), <<Lk(3, ps[n][2], << [fmt |-> 1, cov |-> Cov(Par(n), <<1, 4>>), alts |-> << <<7, 11, 12>>, <<9>> >>],
                                               [fmt |-> 1, cov |-> Cov(1, <<1, 2>>), alts |-> << <<8>>, <<8, 14>> >>] >>)>>)
-              EXCEPT !.request = <<Req("test", ps[n][1])>>],
+              EXCEPT !.request = <<Req("liga", ps[n][1])>>],
            <<1, 2, 4, 6>>, 3)]
 
 (* F4 ligature substitution: skipping by every flag, set order, subtable    *)
@@ -229,6 +229,18 @@ FamInteractions ==
                       Lk(2, F0, << [fmt |-> 1, cov |-> Cov(1, <<2>>), seqs |-> << <<>> >>] >>),
                       Nest1(F0) >>),
            <<1, 2, 4, 6>>, Q(5, 6)),
+     \* a record after a record that deleted the glyph at its sequence index: the index then denotes the glyph
+     \* that moved up, or nothing at all when the deleted glyph was the last of the run
+     Entry("context-deletes-then-indexes",
+           Prog(1, << Lk(5, F0, << [fmt |-> 3, input |-> <<Cov(1, <<1, 2>>)>>, recs |-> << <<0, 1>>, <<0, 2>> >>] >>),
+                      Lk(2, F0, << [fmt |-> 1, cov |-> Cov(1, <<1>>), seqs |-> << <<>> >>] >>),
+                      Nest1(F0) >>),
+           <<1, 2, 6>>, Q(4, 5)),
+     \* nested deletions that remove more glyphs than the input sequence had
+     Entry("context-deletes-twice",
+           Prog(2, << Lk(5, FM, << [fmt |-> 3, input |-> <<Cov(2, <<1, 2>>)>>, recs |-> << <<0, 1>>, <<0, 1>> >>] >>),
+                      Lk(2, F0, << [fmt |-> 1, cov |-> Cov(2, <<1, 2>>), seqs |-> << <<>>, <<>> >>] >>) >>),
+           <<1, 2, 4, 6>>, Q(4, 5)),
      \* contexts nested in contexts, to the depth allsorts permits
      Entry("context-nested-depth",
            Prog(1, << Lk(5, F0, << [fmt |-> 3, input |-> <<Cov(1, <<1>>), Cov(1, <<1, 2>>)>>, recs |-> << <<1, 1>>, <<0, 3>> >>] >>),
@@ -276,13 +288,14 @@ OrdLookups ==
      Lk(1, F0, << [fmt |-> 2, cov |-> Cov(1, <<2>>), subst |-> <<6>>] >>),                     \* 1: B -> U
      Lk(4, F0, << [fmt |-> 1, cov |-> Cov(1, <<1, 2>>), sets |-> << << [lig |-> 8, comps |-> <<2>>] >>, << [lig |-> 14, comps |-> <<2>>] >> >>] >>),  \* 2
      Lk(2, F0, << [fmt |-> 1, cov |-> Cov(1, <<6>>), seqs |-> << <<1, 2>> >>] >>) >>            \* 3: U -> A B
-OrdFeatures == << Feat("liga", <<2, 0>>), Feat("tst1", <<1>>), Feat("ccmp", <<3, 1>>), Feat("tst2", <<>>) >>
+\* tags known to FeatureMask (so that Features::Mask can request them), in alphabetical order as OpenType asks
+OrdFeatures == << Feat("calt", <<2, 0>>), Feat("ccmp", <<1>>), Feat("liga", <<3, 1>>), Feat("rlig", <<>>) >>
 OrdVars == << [conds |-> << <<0, 8192, 16384>>, <<1, -16384, 0>> >>, subst |-> << [fi |-> 0, lookups |-> <<3>>], [fi |-> 2, lookups |-> <<0>>] >>],
               [conds |-> << <<0, 4096, 16384>> >>, subst |-> << [fi |-> 1, lookups |-> <<2, 3>>] >>],
               [conds |-> <<>>, subst |-> <<>>] >>
 FamOrder ==
-  LET reqs == << <<Req("liga", 0)>>, <<Req("tst1", 0), Req("liga", 0)>>, <<Req("ccmp", 0), Req("liga", 0), Req("tst1", 0)>>,
-                 <<Req("ccmp", 0)>>, <<Req("none", 0), Req("tst2", 0)>>, <<>> >>
+  LET reqs == << <<Req("calt", 0)>>, <<Req("ccmp", 0), Req("calt", 0)>>, <<Req("liga", 0), Req("calt", 0), Req("ccmp", 0)>>,
+                 <<Req("liga", 0)>>, <<Req("smcp", 0), Req("rlig", 0)>>, <<>> >>
       tuples == << <<>>, <<0, 0>>, <<8192, 0>>, <<8192, 1>>, <<4096, -16384>>, <<16384, -1>>, <<4095>>, <<8192>> >>
       ps == Pairs(reqs, tuples) IN
   [n \in 1 .. Len(ps) |->
@@ -317,6 +330,13 @@ Init ==
 
 Finished == k = Len(Order)
 
+\* termination measure: lexicographic (lookups left, glyphs at or after the cursor) folded into one number
+MeasureOf(kk, rr, ii) ==
+  (Len(Order) - kk) * 1000
+  + (IF kk = Len(Order) THEN 0
+     ELSE IF IsReverse(CtxStd.lookups[Order[kk + 1][1] + 1]) THEN ii + 1 ELSE Len(rr) + 2 - ii)
+Measure == MeasureOf(k, run, i)
+
 \* one loop iteration of the current lookup, or the end of its loop
 Next ==
   /\ ~Finished
@@ -335,6 +355,9 @@ Next ==
                /\ UNCHANGED <<k, hist>>
           ELSE /\ k' = k + 1 /\ hist' = Append(hist, run) /\ i' = StartCursor(k + 1, run)
                /\ UNCHANGED <<run, tags, deleted>>
+  \* Terminates: every step strictly decreases the measure (checked on every transition; a temporal
+  \* PROPERTY [][Measure' < Measure]_vars states the same but costs TLC minutes on this model)
+  /\ Assert(MeasureOf(k', run', i') < Measure, <<"measure does not decrease", pi, inp, k, i>>)
 
 Spec == Init /\ [][Next]_vars
 
@@ -359,11 +382,6 @@ FlagsSane ==
 ProgramsWellFormed == (inp = <<>> /\ k = 0) => WFProgram(P.prog, NumGlyphs)
 
 SmallStepIsDenotation == Finished => hist = GsubSteps(P.prog, DevStd, inp)
-
-\* termination: lexicographic (lookups left, glyphs at or after the cursor), strictly decreasing
-Measure ==
-  (Len(Order) - k) * 1000 + (IF Finished THEN 0 ELSE IF IsReverse(CurL) THEN i + 1 ELSE Len(run) + 2 - i)
-Terminates == [][Measure' < Measure]_vars
 
 ---------------------------------------------------------------------------
 (* Generator *)
